@@ -1,6 +1,7 @@
 import Percival.Proofs.Http
 import Percival.Proofs.HttpSamples
 import Percival.Proofs.HttpRes
+import Percival.Proofs.HttpStep
 /-!
 # C08 — the HTTP client is memory-safe and terminates cleanly on any server byte stream
 
@@ -331,5 +332,65 @@ theorem cancel_frees_and_cancels_everything (r : RSt) (cc : Nat) (h : Cons r cc)
 /-- a state holding everything a request can hold at once is consistent (as is the state right after
     `http_request()`, `Proofs.HttpRes.cons_httpRequest`) -/
 example : Cons exFull 0 := exFull_cons
+
+/-! ## the function the executable runs (`pmodel http`: `Model/HttpStep.lean`, components `httpmal` and `httpwf`) -/
+
+open Percival.Model.HttpStep in
+/-- **Every `run` line the executable prints (`httpmal`: hostile streams, and every other case).**  `runCase` is
+the function behind a `run` line: it plays the request of the configuration `c` — any server byte stream, any
+`recv` script (any segment sizes, EAGAINs), EOF or reset at the end, any request, any body limit, refused
+connection, a failing `send` at any offset, a cancellation after any wait or any `recv` — against
+`Model.HttpRes.runAllR` with the scripted reader `readerTurn` as environment and `glibcOvf` for out-of-range
+numerals.  For **every** configuration: the model does not abort, fault, or invoke the callback twice (none of
+`abort …`, `abort resource-fault`, `abort model: n callbacks`, `abort request-length-assert` can be printed);
+the line printed is a `cb=…` line whose `range=` verdict is `ok`, with nothing live, no descriptor and no
+registration; it reports either a cancelled request without callback or exactly one callback, and a response
+handed over has a status in 100..599 and a body no longer than the limit.  `spec-mismatch` can only be printed
+when the case carries a response value (`httpwf`; excluded under the hypotheses of `C09.exec_wellformed_decoded`). -/
+theorem exec_answer_in_range (c : Cfg) (g : Bool) :
+    (∃ resp, runCase c g = .specMismatch resp ∧ c.wf.isSome = true) ∨
+    (∃ cb resp sent rs tr, runCase c g = .fin g c.early cb resp sent true rs tr ∧
+      rs.live = [] ∧ rs.fds = 0 ∧ rs.regs = 0 ∧
+      (match resp with
+       | none => cb = 0
+       | some none => cb = 1
+       | some (some x) => cb = 1 ∧ 100 ≤ x.status ∧ x.status ≤ 599 ∧
+          (match x.body with
+           | some b => b.length ≤ c.limit
+           | none => True))) := by
+  have h := Percival.Proofs.HttpStep.runCase_ok c g
+  generalize runCase c g = out at h
+  cases out with
+  | specMismatch resp => exact Or.inl ⟨resp, rfl, h⟩
+  | fin g' early cb resp sent rok rs tr =>
+    obtain ⟨rfl, rfl, rfl, h4, h5, h6, h7⟩ := h
+    refine Or.inr ⟨cb, resp, sent, rs, tr, rfl, h4, h5, h6, ?_⟩
+    cases resp with
+    | none => exact h7
+    | some y =>
+      cases y with
+      | none => exact h7.1
+      | some x =>
+        refine ⟨h7.1, ?_⟩
+        have h8 := h7.2
+        simp only [rangeOk, Bool.and_eq_true, decide_eq_true_eq] at h8
+        refine ⟨h8.1.1, h8.1.2, ?_⟩
+        cases hb : x.body with
+        | none => trivial
+        | some b => rw [hb] at h8; simpa using h8.2
+  | abortReq => exact absurd h (by simp [Percival.Proofs.HttpStep.RunOK])
+  | abort w ws => exact absurd h (by simp [Percival.Proofs.HttpStep.RunOK])
+  | fault e ws => exact absurd h (by simp [Percival.Proofs.HttpStep.RunOK])
+  | badCallbacks n => exact absurd h (by simp [Percival.Proofs.HttpStep.RunOK])
+
+/-- a hostile case (the sample stream cut after 40 bytes, then a reset, in 3-byte segments): one callback with `NULL`;
+    and a complete one with limit 1: the callback gets status 200 and no body buffer (too big) -/
+example :
+    (match Percival.Model.HttpStep.runCase Percival.Proofs.HttpStep.exMal true,
+           Percival.Model.HttpStep.runCase { Percival.Proofs.HttpStep.exMal with
+             chunks := [Percival.Proofs.HttpSamples.sampleStream], limit := 1 } true with
+     | .fin true false 1 (some none) _ true _ _, .fin true false 1 (some (some x)) _ true _ _ =>
+         decide (x.status = 200) && x.body == none
+     | _, _ => false) = true := by decide +kernel
 
 end Percival.C08
